@@ -211,6 +211,7 @@ def getTextgridAsStr(
     tg = _prepTgForSaving(
         tg, includeBlankSpaces, minTimestamp, maxTimestamp, minimumIntervalLength
     )
+    _timestampsToFloats(tg)
 
     if format == TextgridFormats.LONG_TEXTGRID:
         outputTxt = _tgToLongTextForm(tg)
@@ -264,6 +265,24 @@ def _downconvertDictionaryForJson(tgAsDict: Dict) -> dict:
         "end": tgAsDict["xmax"],
         "tiers": tiers,
     }
+
+
+def _timestampsToFloats(tg: Dict) -> None:
+    """Timestamps given as int are written as the floats that are read back
+
+    (3 and 3.0 are the same time; in the json formats they are different text)
+    """
+
+    def asFloat(val):
+        return float(val) if isinstance(val, int) else val
+
+    tg["xmin"], tg["xmax"] = asFloat(tg["xmin"]), asFloat(tg["xmax"])
+    for tier in tg["tiers"]:
+        tier["xmin"], tier["xmax"] = asFloat(tier["xmin"]), asFloat(tier["xmax"])
+        tier["entries"] = [
+            tuple(asFloat(val) for val in entry[:-1]) + (entry[-1],)
+            for entry in tier["entries"]
+        ]
 
 
 def _sortEntries(tg: Dict) -> None:
